@@ -26,6 +26,7 @@ var (
 func checkC07(c *chk.Ctx) {
 	h := newH(c)
 	c.Decided = []string{
+		"R07l a follower that discarded its database for a snapshot leaves the installer only with its log cleared",
 		"R07k once an entry is committed the leader's continuation applies it on every path (no shortcut on a cancelled request context)",
 		"R07a one indexed write batch per request: every mutation, the commit offset and the version counter go into the batch created by ProcessWrite, which is committed exactly once before success is reported",
 		"R07b replay starts right after the commit offset stored in the DB (leader) / applied by the follower",
@@ -40,6 +41,7 @@ func checkC07(c *chk.Ctx) {
 	ruleR07a(h, "R07a")
 	ruleR07b(h)
 	ruleR07c(h)
+	ruleSnapshotDiscardClearsLog(h, "R07l")
 	ruleR06c(h, "R07d")
 	ruleQueuedContinuationsUnderLock(h, "R07e")
 	ruleReusedDecodeTargetReset(h, "R07f")
